@@ -160,6 +160,41 @@ func TestVerifC05(t *testing.T) {
 			}
 		}
 	}
+	// rename pairs: version A is indexed, version B (names inside func types changed) is scanned
+	for pi, pr := range progfam.RenamePairs {
+		if shTotal > 1 && (pi+3)%shTotal != shN {
+			continue
+		}
+		var tps [2]map[string]*topology.FunctionTopology
+		for vi, src := range []string{pr.A, pr.B} {
+			text := progfam.RenderPair(src)
+			sub := filepath.Join(dir, fmt.Sprintf("pair-%s-%d", pr.ID, vi))
+			os.MkdirAll(sub, 0o755)
+			path := filepath.Join(sub, "pair.go")
+			os.WriteFile(path, []byte(text), 0o644)
+			tp, err := c05Topologies(path, text)
+			if err != nil {
+				r.Fail("rename pair %s: %v", pr.ID, err)
+				return
+			}
+			tps[vi] = tp
+		}
+		for name, ta := range tps[0] {
+			if name == "init" {
+				continue
+			}
+			tb := tps[1][name]
+			if tb == nil {
+				r.Fail("rename pair %s: entry %s missing from version B", pr.ID, name)
+				return
+			}
+			bk := "pair:" + pr.ID + ":" + name
+			baseTopo[bk] = ta
+			c := &pfCase{base: progfam.Base{ID: "pair-" + pr.ID}, key: fmt.Sprintf("pair-%s/%s/names-in-func-types@0", pr.ID, name), fnOld: bk, fnNew: bk,
+				v: progfam.Variant{Op: "R1-rename-locals", Desc: "names inside func-typed parameters, locals and results renamed (entry " + name + ")", Src: progfam.RenderPair(pr.B)}}
+			probes = append(probes, probe{c, tb})
+		}
+	}
 	dbn := 0
 	for _, p := range probes {
 		c := p.c
@@ -170,7 +205,7 @@ func TestVerifC05(t *testing.T) {
 		}
 		sig := detection.IndexFunction(bt, "FAM_"+c.fnOld, "d", "HIGH", "malware")
 		sig.ID = "SIG-" + c.base.ID
-		if strings.HasPrefix(c.fnOld, "shape:") {
+		if strings.HasPrefix(c.fnOld, "shape:") || strings.HasPrefix(c.fnOld, "pair:") {
 			sig.ID = "SIG-" + c.fnOld
 		}
 		decoys := []detection.Signature{}
